@@ -21,6 +21,14 @@ DET = {
  "C19-m1": ("C19", "./check C19 --tier quick -> exit 1 (Lt/Gt/Leq/Geq with an operand (p-1)/2)", ""),
  "C19-m2": ("C19", "./check C19 --tier quick -> exit 1 (Shr/Shl of operands >= 2^192 by 1..63)", ""),
  "C20-m1": ("C20", "./check C20 and ./check C19 --tier quick -> exit 1 (Lor of operands summing to p)", ""),
+ "C05-m1": ("C05", "./check C05 --tier quick -> exit 1 (second of two assignments that differ by a swap inside pathElements gets the first one's witness)", "missed at first; every fourth assignment is now derived from the one evaluated just before it"),
+ "C05-m2": ("C05", "./check C05 --tier quick -> exit 1 (input 2^64 evaluated as 0)", ""),
+ "C06-m3": ("C06", "./check C06 --tier quick -> exit 1 (full backend: rejected range changed leaves)", ""),
+ "C06-m4": ("C06", "./check C06 --tier quick -> exit 1 (pm: set of the stored value does not raise the mark)", ""),
+ "C07-m3": ("C07", "./check C07 --tier quick -> exit 1 (optimal: stale inner node after an unaligned batch)", ""),
+ "C07-m4": ("C07", "./check C07 --tier quick -> exit 1 (full backend, depth 10: proof of position >= 256 decodes to another position)", "missed at first; trait-level runs at depths 10 and 20 with sparse observation added"),
+ "C16-m3": ("C16", "./check C16 --tier quick -> exit 1 (delete hit by an injected write failure reports ok)", ""),
+ "C16-m4": ("C16", "./check C16 --tier quick -> exit 1 (crash right after an acknowledged flush: the batch written before it is gone)", "missed at first; crash points between calls with every write path isolated between two flushes added"),
  "C09-m1": ("C09", "./check C09 --tier quick -> exit 1 (Poseidon of 8 inputs: round certificate rejected)", ""),
  "C09-m2": ("C09", "./check C09 --tier quick -> exit 1 (byte-level / FFI hash of a 4097-byte signal differs from Keccak.tla)", "missed at first; hash-to-field lengths 4095, 4096, 4097 (8192, 10000 thorough) added"),
  "C11-m1": ("C11", "./check C11 --tier quick -> exit 1 (metadata after set_tree differs between FFI and API)", "missed at first; life-cycle scenario and set_tree inside random histories added"),
@@ -32,7 +40,9 @@ DET = {
  "C20-m2": ("C20", "./check C20 --tier quick -> exit 1 (stored constants 128..255 come back negative)", ""),
 }
 conf = {}
-for f in sorted(glob.glob("/tmp/confirm*.log")):
+for f in sorted(glob.glob("/tmp/confirm*.log")) + ["/verif/seeded/confirmations.txt"]:
+    if not os.path.exists(f):
+        continue
     for l in open(f):
         m = re.match(r"CONFIRM \S*/(C\d+)[-/](?:out/)?(m\d)\s+(.*)", l.strip().replace("seeded/", "seeded/").replace("/tmp/wt-", "/x/"))
         if m:
